@@ -37,6 +37,7 @@ Proof.
   - apply all_match_run_no_gaps. apply Forall_forall. intros t Ht. unfold tasks in Ht.
     apply in_map_iff in Ht as (x & <- & _). simpl. apply all_match_zeros.
 Qed.
+Print Assumptions C08_diagonal_merges_give_no_gaps.
 
 (* Instances by evaluation (tests, not the unbounded claim): the binary32 model returns the diagonal for
    three copies of an all-ambiguity-code sequence under the 'dna' parameters, through the sequence-sequence
